@@ -93,8 +93,9 @@ func demoSummonState(h Hydra, n name.Name) (present bool, ready bool, count int3
 	w := v.(*SwampWaiter)
 	w.cond.L.Lock()
 	ready = w.ready
+	count = w.count
 	w.cond.L.Unlock()
-	return true, ready, atomic.LoadInt32(&w.count)
+	return true, ready, count
 }
 
 func demoL3WaitUntil(t *testing.T, what string, cond func() bool) {
